@@ -17,7 +17,7 @@ import (
 // writes for an event must not depend on the events it has logged before.
 func TestVerifC20History(t *testing.T) {
 	L := ev.Begin("C20", "c20-history", "model_checking",
-		"every field alone (plus the two stock formats) x every ordered pair and every ordered triple of 8 events built to collide on whatever a logger might remember (same start second with different end seconds, same end second, equal everything but one attribute, non-UTC zone), logged one after the other through ONE logger; state = the events logged so far. oracle (differential, no expected value): line k equals the line a fresh logger writes for event k alone. non-trivial = histories whose events share a start or an end second")
+		"every field alone (plus the two stock formats) x every ordered pair and every ordered triple of 8 events built to collide on whatever a logger might remember (same start second with different end seconds, same end second, equal everything but one attribute, non-UTC zone), logged one after the other through ONE logger; state = the events logged so far. oracle (differential, no expected value): line k equals the line a fresh logger writes for event k alone; plus a destination that refuses one write out of four: the other three lines are written. non-trivial = histories whose events share a start or an end second")
 	var names []string
 	for f := range fields {
 		names = append(names, f)
@@ -114,8 +114,58 @@ func TestVerifC20History(t *testing.T) {
 			}
 		}
 	}
+	// a log destination that refuses one write (disk full for a moment, a pipe that was busy): the line of that
+	// event is lost, the lines of the events after it are not
+	for _, f := range []string{CommonFormat, "$response_status"} {
+		for failAt := 0; failAt < 3; failAt++ {
+			w := &c20FlakyWriter{failAt: failAt}
+			l, err := New(w, f)
+			if err != nil {
+				panic(err)
+			}
+			L.Case()
+			L.NontrivialKey(fmt.Sprint("write-error", f, failAt))
+			msg, _, pan := ev.Guard(func() {
+				for i := 0; i < 4; i++ {
+					l.Log(c20Event(evs[i]))
+				}
+			})
+			d := map[string]interface{}{"format": f, "events": 4, "write_that_fails": failAt, "lines_written": w.lines}
+			if pan {
+				d["panic"] = msg
+				L.Violation("log-panics-after-a-write-error", d)
+				continue
+			}
+			var want []string
+			for i := 0; i < 4; i++ {
+				if i != failAt {
+					want = append(want, alone[fmt.Sprint(f, i)])
+				}
+			}
+			if strings.Join(w.lines, "|") != strings.Join(want, "|") {
+				d["want_lines"] = want
+				L.Violation("events-after-a-failed-write-not-logged", d)
+			}
+		}
+	}
 	L.AddStates(int64(len(states)))
 	L.AddTransitions(transitions)
 	L.AddTraces(int64(len(hists) * len(names)))
 	L.End(true)
+}
+
+
+// c20FlakyWriter refuses its failAt-th write and takes all others.
+type c20FlakyWriter struct {
+	failAt, n int
+	lines     []string
+}
+
+func (w *c20FlakyWriter) Write(b []byte) (int, error) {
+	w.n++
+	if w.n-1 == w.failAt {
+		return 0, fmt.Errorf("write: no space left on device")
+	}
+	w.lines = append(w.lines, strings.TrimSuffix(string(b), "\n"))
+	return len(b), nil
 }
